@@ -135,7 +135,45 @@ fn chunkings(s: &str, max_chunks: usize) -> Vec<Vec<&str>> {
     }
 }
 
+/// Queries between the feeds: after every piece, every offset of the text fed so far is looked up
+/// (a cache that remembers anything about an earlier lookup must forget it when more text arrives).
+fn check_interleaved(ctx: &Ctx, s: &str, pieces: &[&str], st: &mut Stats) {
+    let case = || json!({"text": s, "pieces": pieces, "interleaved": true});
+    let r = catch_unwind(AssertUnwindSafe(|| {
+        let mut c = NewlineCache::new();
+        let mut prefix = String::new();
+        let mut bad: Option<String> = None;
+        for p in pieces {
+            c.feed(p);
+            prefix.push_str(p);
+            // ascending and descending, so that the last lookup before the next feed is once at the
+            // end and once at the start of the text
+            let b = boundaries(&prefix);
+            let order: Vec<usize> = if prefix.len() % 2 == 0 { b.clone() } else { b.iter().rev().cloned().collect() };
+            for off in order {
+                let got = (c.byte_to_line_num(off), c.byte_to_line_byte(off), c.byte_to_line_num_and_col_num(&prefix, off));
+                let el = ref_line(&prefix, off);
+                let els = ref_line_start(&prefix, off);
+                let ok = got.0 == Some(el) && got.1 == Some(els) && matches!(got.2, Some((l, col)) if l == el && ref_cols(&prefix, off).contains(&col));
+                if !ok && bad.is_none() {
+                    bad = Some(format!("after feeding {:?} of the pieces, offset {} of \"{}\": (line, line start, line/col) = {:?}, expected line {} starting at {}", prefix.len(), off, esc(&prefix), got, el, els));
+                }
+            }
+        }
+        bad
+    }));
+    st.offset_checks += 1;
+    match r {
+        Err(e) => ctx.violation("c19-interleaved-panic", &format!("look-ups between the feeds of {:?} panicked: {}", pieces.iter().map(|p| esc(p)).collect::<Vec<_>>(), panic_msg(&e)), case()),
+        Ok(Some(msg)) => ctx.violation("c19-interleaved", &format!("{} (pieces {:?})", msg, pieces.iter().map(|p| esc(p)).collect::<Vec<_>>()), case()),
+        Ok(None) => {}
+    }
+}
+
 fn check_cache(ctx: &Ctx, s: &str, pieces: &[&str], st: &mut Stats, full: bool) {
+    if pieces.iter().filter(|p| !p.is_empty()).count() >= 2 {
+        check_interleaved(ctx, s, pieces, st);
+    }
     let case = || json!({"text": s, "pieces": pieces});
     let nc = match catch_unwind(AssertUnwindSafe(|| {
         let mut c = NewlineCache::new();
